@@ -135,7 +135,7 @@ def ctor_forwarding():
             crossed = [f"self.{k}={v}" for k, v in stores.items() if k in params and k != v]
             if stores:
                 obs.append(flow.ob(f"{cname}.__init__:options-are-stored-under-their-own-name", not crossed, str(crossed), replay_schema="code", replay_extra={"code": REPLAY_CTOR}))
-    obs.append(flow.ob("base-constructor-calls-found", n >= 4, f"{n}"))
+    obs.append(flow.ob("base-constructor-calls-found", n >= 2, f"{n}"))
     return obs
 
 
